@@ -309,3 +309,144 @@ package skiplist
 //@ ensures[count] result.n == gn && gn >= 0
 //@ ensures[chain] gn > 0 ==> result.head.nx[0] == result.phys[0] && (forall i, j int {result.phys[i], result.phys[j]} :: 0 <= i && j == i + 1 && j < result.n ==> result.phys[i].nx[0] == result.phys[j] && !result.phys[i].del[0]) && result.phys[result.n - 1].nx[0] == result.tail
 //@ nopanic
+
+// ---------------------------------------------------------------------------
+// C16: access barrier (thread-modular). OFF = barrierFlushOffset.
+// Shared ghost per session: ins = threads between their +1 and their -1 on the live count (token holders, accessors
+// that are backing off, the flusher); tok = outstanding tokens (successful Acquire); fl = closed by a flush (offset
+// added); trm = the termination latch was taken. Thread-local ghost: myins, mytok (this thread's share of ins, tok).
+// ---------------------------------------------------------------------------
+
+//@ ghost field BarrierSession.valid bool
+//@ ghost field BarrierSession.ins int
+//@ ghost field BarrierSession.tok int
+//@ ghost field BarrierSession.fl bool
+//@ ghost field BarrierSession.trm bool
+//@ ghost field BarrierSession.myins int
+//@ ghost field BarrierSession.mytok int
+//@ ghost field AccessBarrier.isab bool
+//@ ghost field BarrierSession.mywin bool
+//@ ghost field BarrierSession.myterm int
+//@ ghost global relTok bool
+
+//@ shared mem(int32), heap(BarrierSession.closed), heap(BarrierSession.ins), heap(BarrierSession.tok), heap(BarrierSession.trm), heap(BarrierSession.valid), heap($brk), heap($alive)
+//@ shared heap(BarrierSession.seqno), heap(BarrierSession.objectRef), heap(AccessBarrier.isDestructorRunning)
+//@ lock mutex AccessBarrier protects heap(AccessBarrier.activeSeqno), heap(AccessBarrier.numAllocated), heap(AccessBarrier.session), heap(BarrierSession.fl)
+//@ lock trylock AccessBarrier.isDestructorRunning protects heap(AccessBarrier.freeSeqno), heap(AccessBarrier.numFreed)
+
+//@ inv J0-cells: forall a, b *BarrierSession {a.valid, b.valid} :: a.valid && b.valid && a != b ==> a.liveCount != b.liveCount
+//@ inv J0-allocated: forall bs *BarrierSession {bs.valid} :: bs.valid ==> bs + 32 <= brk() && bs.liveCount + 4 <= brk()
+//@ inv J1-count: forall bs *BarrierSession {bs.ins} :: bs.valid ==> bs.liveCount != nil && memi32(bs.liveCount) == bs.ins + ite(bs.fl, barrierFlushOffset, 0)
+//@ inv J2-range: forall bs *BarrierSession {bs.ins} :: bs.valid ==> 0 <= bs.mytok && bs.mytok <= bs.myins && bs.myins <= bs.ins && bs.mytok <= bs.tok && bs.tok <= bs.ins && bs.tok - bs.mytok <= bs.ins - bs.myins
+//@ inv J3-current: forall ab *AccessBarrier {ab.session} :: ab.isab ==> ab.session != nil && cast(*BarrierSession, ab.session).valid && !cast(*BarrierSession, ab.session).fl
+//@ inv J4-term: forall bs *BarrierSession {bs.trm} :: bs.valid && bs.trm ==> bs.fl && bs.tok == 0
+//@ inv J5-latch: forall bs *BarrierSession {bs.closed} :: bs.valid ==> bs.closed >= 0 && (bs.closed >= 1 <==> bs.trm)
+
+//@ inv J6-winner: forall bs *BarrierSession {bs.mywin} :: bs.valid && bs.mywin ==> bs.trm
+//@ rely g-brk: brk() >= old(brk())
+//@ rely g-valid: forall bs *BarrierSession {bs.valid} :: old(bs.valid) ==> bs.valid
+//@ rely g-flushed: forall bs *BarrierSession {bs.fl} :: old(bs.valid) && old(bs.fl) ==> bs.fl
+//@ rely g-term: forall bs *BarrierSession {bs.trm} :: old(bs.valid) && old(bs.trm) ==> bs.trm
+//@ rely g-no-token-after-flush: forall bs *BarrierSession {bs.tok} :: old(bs.valid) && old(bs.fl) ==> bs.tok <= old(bs.tok)
+//@ rely others-keep-mine: forall bs *BarrierSession {bs.ins} :: bs.valid ==> bs.ins >= bs.myins && bs.tok >= bs.mytok
+//@ rely a-threads: forall bs *BarrierSession {bs.ins} :: bs.valid ==> bs.ins < 1000000000 && bs.closed < 1000000000
+
+//@ func newBarrierSession
+//@ props C16
+//@ modifies heap($alive), heap($brk)
+//@ ghost-exit bs.valid := true
+//@ ghost-exit bs.ins := 0
+//@ ghost-exit bs.tok := 0
+//@ ghost-exit bs.fl := false
+//@ ghost-exit bs.trm := false
+//@ ghost-exit bs.myins := 0
+//@ ghost-exit bs.mytok := 0
+//@ ensures[fresh] result != nil && result >= old(brk()) && result + 32 <= brk() && result.liveCount != nil && result.liveCount >= old(brk()) && result.liveCount + 4 <= brk() && memi32(result.liveCount) == 0 && result.closed == 0
+//@ ghost-exit bs.mywin := false
+//@ ensures[ghost] result.valid && result.ins == 0 && result.tok == 0 && !result.fl && !result.trm && result.myins == 0 && result.mytok == 0 && !result.mywin
+
+//@ func (*AccessBarrier).Acquire @step
+//@ props C16 C04
+//@ mode step
+//@ requires ab != nil && ab.isab && ab.freeq != nil
+//@ at-call (*skiplist.AccessBarrier).Release relTok := false
+//@ loop 1 invariant[mine] (forall b *BarrierSession {b.myins} :: b.myins == old(b.myins) && b.mytok == old(b.mytok)) && ab.isab && ab.freeq != nil
+//@ atomic 2 ghost bs.ins := bs.ins + 1
+//@ atomic 2 ghost bs.myins := bs.myins + 1
+//@ atomic 2 ghost if ret <= barrierFlushOffset then bs.tok := bs.tok + 1
+//@ atomic 2 ghost if ret <= barrierFlushOffset then bs.mytok := bs.mytok + 1
+//@ atomic 2 assert[closed-iff-over] (ret > barrierFlushOffset) <==> bs.fl
+//@ atomic 2 assert[token-only-if-open] ret <= barrierFlushOffset ==> !bs.fl && !bs.trm
+//@ ensures[token] ab.active ==> result != nil && result.valid && result.mytok == old(result.mytok) + 1 && result.myins == old(result.myins) + 1
+//@ ensures[others] forall b *BarrierSession {b.myins} :: b != result ==> b.myins == old(b.myins) && b.mytok == old(b.mytok)
+//@ nopanic
+
+//@ func (*AccessBarrier).Release @step
+//@ props C16 C04
+//@ mode step
+//@ ghost-pre relTok := true
+//@ requires ab != nil && ab.isab && ab.freeq != nil && bs != nil && bs.valid && bs.myins >= 1 && bs.mytok >= 1
+//@ atomic 1 pre[holds] bs.valid && bs.myins >= 1 && (relTok ==> bs.mytok >= 1)
+//@ atomic 1 ghost bs.ins := bs.ins - 1
+//@ atomic 1 ghost bs.myins := bs.myins - 1
+//@ atomic 1 ghost if relTok then bs.tok := bs.tok - 1
+//@ atomic 1 ghost if relTok then bs.mytok := bs.mytok - 1
+//@ atomic 1 assert[last-out] ret == barrierFlushOffset ==> bs.fl && bs.ins == 0 && bs.tok == 0
+//@ atomic 1 assert[no-underflow] ret >= 0 && ret != barrierFlushOffset - 1
+//@ atomic 2 ghost if ret == 1 then bs.trm := true
+//@ atomic 2 ghost if ret == 1 then bs.mywin := true
+//@ atomic 2 assert[latch-once] ret == 1 ==> !old(bs.trm)
+//@ at-call (*skiplist.Skiplist).Insert bs.myterm := bs.myterm + 1
+//@ ensures[terminate-by-winner-only] bs.myterm - old(bs.myterm) == ite(bs.mywin && !old(bs.mywin), 1, 0)
+//@ nopanic
+
+// The skiplist as an abstract set (linearizable-set abstraction, C13): used where the list is a side structure
+// (free queue of the barrier, snapshot lists). Trusted here.
+//@ ghost field Skiplist.set [ref]bool
+
+//@ func (*Skiplist).Insert
+//@ trusted linearizable set abstraction of the skiplist (C13); inserts itm unless an equal item is present
+//@ requires s != nil
+//@ modifies s.set, heap(Node.$nx), heap(Node.$del), s.level, s.phys, s.n, heap($alive), heap($brk), mem(int32)
+//@ modifies heap(Stats.insertConflicts), heap(Stats.readConflicts), heap(Stats.softDeletes), heap(Stats.nodeAllocs), heap(Stats.nodeFrees), heap(Stats.usedBytes), heap(Stats.levelNodesCount)
+//@ ensures success ==> s.set == store(old(s.set), itm, true)
+//@ ensures !success ==> s.set == old(s.set)
+//@ ensures old(!s.set[itm]) && (forall x ref {s.set[x]} :: old(s.set[x]) ==> cmpf(cmp, x, itm) != 0) ==> success
+
+// doCleanup runs under the try-lock isDestructorRunning (freeSeqno, numFreed are protected by it, session seqnos
+// are immutable once assigned), so it is verified sequentially. Whatever the queue iteration yields, destructors are
+// invoked for consecutive close numbers only, each at most once: dbad records any out-of-order invocation.
+//@ ghost global dprev int
+//@ ghost global dbad bool
+//@ callback-field AccessBarrier.callb(fn ref, objectRef ref)
+//@ pure-call
+
+//@ func (*AccessBarrier).doCleanup
+//@ props C16
+//@ requires ab != nil && ab.freeq != nil
+//@ ghost-pre dbad := false
+//@ ghost-pre dprev := ab.freeSeqno
+//@ modifies ab.freeSeqno, ab.numFreed, dprev, dbad, heap($alive), heap($brk)
+//@ call (*skiplist.Skiplist).NewIterator havoc heap($alive), heap($brk)
+//@ call (*skiplist.Iterator).SeekFirst havoc none
+//@ call (*skiplist.Iterator).Valid havoc none
+//@ call (*skiplist.Iterator).Next havoc none
+//@ call (*skiplist.Iterator).GetNode havoc none
+//@ call (*skiplist.Iterator).Close havoc none
+//@ call (*skiplist.Skiplist).DeleteNode havoc none
+//@ at-call field:skiplist.AccessBarrier.callb dbad := dbad || bs.seqno != (dprev + 1) % 18446744073709551616
+//@ at-call field:skiplist.AccessBarrier.callb dprev := bs.seqno
+//@ loop 1 invariant[order] !dbad && dprev == ab.freeSeqno && ab.freeq != nil
+//@ ensures[in-order] !dbad
+
+//@ func (*AccessBarrier).FlushSession @step
+//@ props C16 C04
+//@ mode step
+//@ requires ab != nil && ab.isab && ab.freeq != nil
+//@ at-call (*skiplist.AccessBarrier).Release relTok := false
+//@ atomic 3 ghost bs.fl := true
+//@ atomic 3 ghost bs.ins := bs.ins + 1
+//@ atomic 3 ghost bs.myins := bs.myins + 1
+//@ atomic 3 pre[not-current] bs.valid && !bs.fl && ab.session != bs
+//@ atomic 3 assert[flushed-once] !old(bs.fl)
+//@ nopanic
